@@ -26,7 +26,7 @@ func (r rapidSource) Int(label string, n int) int      { return rapid.IntRange(0
 // the events a server can send on its own
 var eventKinds = []string{"pong", "ack", "new-session", "bad-msg", "state-info", "all-info", "detailed-info", "new-detailed-info", "future-salts",
 	"bad-salt-unknown", "bad-salt-answered", "rotate",
-	"result-unknown", "result-again", "error-unknown", "update", "updates-too-long", "unknown-ctor", "truncated", "empty-body", "empty-container", "nested-container", "raw-soup", "close",
+	"result-unknown", "result-again", "error-unknown", "update", "updates-too-long", "unknown-ctor", "truncated", "empty-body", "empty-container", "nested-container", "raw-soup", "gzip-damaged", "close",
 	"schema-object", "schema-object", "schema-object",
 	"cut:result-unknown", "cut:pong", "cut:ack", "cut:bad-msg", "cut:state-info", "cut:update", "cut:nested-container", "cut:future-salts"}
 
@@ -278,7 +278,7 @@ func genEvents(t *rapid.T) []Event {
 			ev.Cut = rapid.IntRange(1, 6).Draw(t, "cut")
 			ev.Gzip = false
 		}
-		if ev.Kind == "empty-body" || ev.Kind == "truncated" || ev.Kind == "raw-soup" {
+		if ev.Kind == "empty-body" || ev.Kind == "truncated" || ev.Kind == "raw-soup" || ev.Kind == "gzip-damaged" {
 			ev.Gzip = false // gzip_packed needs an object to pack
 		}
 		out = append(out, ev)
@@ -370,7 +370,7 @@ func TestC16(t *testing.T) {
 					ev.Gzip = false
 					ev.Cut = 1 + (idx % 5) // together with the four wrappings every short prefix occurs
 				}
-				if k == "empty-body" || k == "truncated" || k == "raw-soup" {
+				if k == "empty-body" || k == "truncated" || k == "raw-soup" || k == "gzip-damaged" {
 					ev.Gzip = false
 				}
 				if k == "raw-soup" {
